@@ -131,6 +131,24 @@ func main() {
 		}()
 		pc.Run(c, r)
 	}()
+	if len(roleUsed) > 0 {
+		r.Extra["anchors_resolved_by_role"] = roleUsed
+		for k, v := range roleUsed {
+			fmt.Printf("NOTE anchor %s not found by name; resolved by its structural role to %s\n", k, v)
+		}
+	}
+	if os.Getenv("OLLACHECK_ROLES") != "" { // developer self-test: every role resolver must agree with the name it stands for
+		for k, res := range roleResolvers {
+			parts := strings.SplitN(k, "|", 2)
+			byName := c.fnByName(parts[0], parts[1])
+			byRole := res(c)
+			st := "ok"
+			if byName != byRole {
+				st = "MISMATCH"
+			}
+			fmt.Printf("ROLE %s %s name=%v role=%v\n", st, k, byName, byRole)
+		}
+	}
 	// mutant self-test (not in mutant mode itself)
 	if overlay == nil {
 		runMutants(c, r, *prop, *tier, absRepo, *verif, seed)
